@@ -139,6 +139,15 @@ MUTATION_CORPUS.append(
      {"m": "wait_any", "a": [], "o": [{"s": [1, {"r": [0, 0]}, {"r": [0, 1]}]}]},
      {"m": "store", "a": [], "o": [{"i": 7}, {"e": [1, {"i": 0}]}]}])
 
+# a referenced label in front of instruction 0: its table entry is 0 (seeded change C03_10: `labels.get(name) or operand`)
+MUTATION_CORPUS.append(
+    [{"l": "L"}, {"m": "add", "a": [], "o": [{"r": [0, 0]}, {"r": [0, 0]}, {"r": [0, 1]}]},
+     {"m": "jmp", "a": [], "o": [{"lab": "L"}]}])
+MUTATION_CORPUS.append(
+    [{"l": "A"}, {"l": "START"}, {"m": "set", "a": [], "o": [{"r": [0, 0]}, {"i": 1}]},
+     {"m": "bez", "a": [], "o": [{"r": [0, 0]}, {"lab": "START"}]},
+     {"m": "bne", "a": [], "o": [{"r": [0, 0]}, {"i": 1}, {"lab": "A"}]}, {"m": "ret_reg", "a": [], "o": [{"r": [0, 0]}]}])
+
 # (program, reserved registers): `assemble_subroutine(reserved_registers=…)`, the fix of F42
 RESERVED_CORPUS = [
     ([{"m": "store", "a": [], "o": [{"i": 7}, {"e": [0, {"r": [0, 1]}]}]}], [[0, 0]]),
@@ -254,6 +263,7 @@ def run(ctx):
     model = H.batch(drv, [req(p, rv) for p, rv in zip(progs, resv)])
     n_static = 0
     n_alias = 0
+    n_refused = 0
     progs_index = {id(p): i for i, p in enumerate(progs)}
     for p, rv, r, m in zip(progs, resv, real, model):
         res.evaluations += 1
@@ -261,6 +271,20 @@ def run(ctx):
         res.count("reserved:%s" % ("0" if not rv else "1-3" if len(rv) <= 3 else "4+"))
         if any("l" in c for c in p) or ("ok" in r and len(r["ok"]) > sum(1 for c in p if "m" in c)):
             res.nontrivial.add(_key(p) + json.dumps(rv))
+        if "ok" in m and "err" in r and n_refused <= 5:
+            # A source that satisfies the assembler's preconditions (the model assembles it: labels
+            # defined and unique, operand kinds fit, enough free registers) must ASSEMBLE: refusing a
+            # legal program is a violation of the property, with the program as failing input.
+            n_refused += 1
+
+            def refused(q, rv=rv):
+                return "err" in H.real_assemble(q, rv)[0] and "ok" in drv.call(req(q, rv))
+
+            small = H.shrink(p, refused)
+            res.failures.append({"what": "the assembler refuses a program that satisfies its preconditions", "kf": None,
+                                 "input": {"program": small, "reserved": [list(x) for x in rv],
+                                           "error": H.real_assemble(small, rv)[0],
+                                           "expected": drv.call(req(small, rv))}})
         if r != m:
             small = H.shrink(p, lambda q: H.real_assemble(q, rv)[0] != drv.call(req(q, rv)))
             res.disagreements.append({"stream": "asm.assemble", "input": {"program": small, "reserved": [list(x) for x in rv]},
